@@ -517,5 +517,6 @@ func main() {
 	wg.Wait()
 	unrunnableIntervals(c)
 	initiatorRelogon(c)
+	failedLocalLogout(c)
 	c.Finish()
 }
